@@ -87,7 +87,7 @@ func TestEth1Genesis(t *testing.T) {
 }
 
 func TestRandomConfigsRun(t *testing.T) {
-	n := 8
+	n := 6
 	if testing.Short() {
 		n = 3
 	}
@@ -172,7 +172,7 @@ func TestMutants(t *testing.T) {
 			t.Fatal(err)
 		}
 		c.Policy.ProposerSlashings, c.Policy.AttesterSlashings, c.Policy.Exits = 0.3, 0.3, 0.4
-		every := 7
+		every := 11
 		if testing.Short() {
 			every = 19
 		}
@@ -200,7 +200,7 @@ func TestMutants(t *testing.T) {
 					bad = append(bad, fmt.Sprintf("%s slot %d %s: PANIC %v", cfg.ID, s.Slot, mu.Label, o.Panic))
 				case o.Accepted:
 					st.accepted++
-					if !mu.ExpectValid {
+					if !mu.ExpectValid && !mu.Unclassified {
 						bad = append(bad, fmt.Sprintf("%s slot %d (%s) %s [%s]: ACCEPTED", cfg.ID, s.Slot, s.Fork, mu.Label, mu.Rule))
 					}
 				default:
